@@ -381,6 +381,7 @@ static void *updater(void *arg)
 			vrt_point();
 			vrt_log("CALL add n%d", id);
 			t_add_b[id] = lt++;
+			h_insert(0, id);
 			items[id].data = expected_data(id);	/* payload initialised before publication (plain store) */
 			if (hlist) cds_hlist_add_head_rcu(&items[id].hn, &hhead);
 			else cds_list_add_rcu(&items[id].list, &head);
@@ -389,7 +390,6 @@ static void *updater(void *arg)
 			nstate[id] = N_LIVE;
 			for (i = na; i > 0; i--) alist[i] = alist[i - 1];
 			alist[0] = id; na++;
-			h_insert(0, id);
 			hist_ops[0]++;
 		} else if (c < 45) {
 			id = new_node();
@@ -397,13 +397,13 @@ static void *updater(void *arg)
 			vrt_point();
 			vrt_log("CALL addtail n%d", id);
 			t_add_b[id] = lt++;
+			h_insert(nh, id);
 			items[id].data = expected_data(id);
 			cds_list_add_tail_rcu(&items[id].list, &head);
 			vrt_log("RET addtail");
 			t_add_e[id] = lt++;
 			nstate[id] = N_LIVE;
 			alist[na++] = id;
-			h_insert(nh, id);
 			hist_ops[1]++;
 		} else if (c < 75 || hlist) {
 			i = vrt_rand() % na;
@@ -428,6 +428,7 @@ static void *updater(void *arg)
 			vrt_point();
 			vrt_log("CALL repl n%d n%d", old, id);
 			t_add_b[id] = t_rem_b[old] = lt++;
+			h_insert(hpos(old), id);
 			items[id].data = expected_data(id);
 			cds_list_replace_rcu(&items[old].list, &items[id].list);
 			vrt_log("RET repl");
@@ -435,7 +436,6 @@ static void *updater(void *arg)
 			nstate[id] = N_LIVE;
 			nstate[old] = N_REMOVED;
 			alist[i] = id;
-			h_insert(hpos(old), id);
 			pending[npending++] = old;
 			hist_ops[3]++;
 		}
